@@ -317,6 +317,9 @@ type SQLSite struct {
 	SQLArg   ssa.Value
 	Args     []ssa.Value // values bound to $1.. (nil entries unknown)
 	ArgsOK   bool
+	// arguments assembled by a helper (`owner.args(n)...` = append([]any{o.src, o.ig}, rest...)): the values
+	// that live inside the helper, with the call they are to be seen through (unfold.go)
+	ArgStack map[int][]*ssa.Call
 	Kind     string // const | sprintf | embed | dynamic | nosql
 	Text     string
 	FmtArgs  []ssa.Value
@@ -478,6 +481,9 @@ func sqlSites(w *World) []SQLSite {
 					s.classify(w)
 					if idx+1 < len(args) {
 						s.Args, s.ArgsOK = varargValues(args[idx+1])
+						if !s.ArgsOK {
+							s.argsFromHelper(args[idx+1])
+						}
 					}
 				}
 			}
@@ -545,4 +551,49 @@ func takesTestingTB(fn *ssa.Function) bool {
 		}
 	}
 	return false
+}
+
+// argsFromHelper: the argument list is what a repo function returns: a literal
+// list of its own followed by its variadic parameter.
+func (s *SQLSite) argsFromHelper(v ssa.Value) {
+	call, ok := v.(*ssa.Call)
+	if !ok {
+		return
+	}
+	h := staticCallee(call)
+	if h == nil || h.Blocks == nil || !isRepoFunc(h) || !h.Signature.Variadic() {
+		return
+	}
+	rets := returnsOf(h)
+	if len(rets) != 1 || len(returnValues(rets[0])) != 1 {
+		return
+	}
+	app, ok := returnValues(rets[0])[0].(*ssa.Call)
+	if !ok || calleeName(app) != "builtin append" || len(app.Call.Args) != 2 {
+		return
+	}
+	lead, ok := varargValues(app.Call.Args[0])
+	if !ok {
+		return
+	}
+	rest, isP := app.Call.Args[1].(*ssa.Parameter)
+	if !isP || rest != h.Params[len(h.Params)-1] {
+		return
+	}
+	tail, ok := varargValues(call.Call.Args[len(call.Call.Args)-1])
+	if !ok {
+		return
+	}
+	s.ArgStack = map[int][]*ssa.Call{}
+	for i, e := range lead {
+		s.Args = append(s.Args, e)
+		s.ArgStack[i] = []*ssa.Call{call}
+	}
+	s.Args = append(s.Args, tail...)
+	s.ArgsOK = true
+}
+
+// argC: argument i (0-based) with the calls it has to be seen through.
+func (s *SQLSite) argC(i int) cval {
+	return cval{v: s.Args[i], stack: s.ArgStack[i]}
 }
